@@ -5,6 +5,7 @@ import GqlProofs.Format.Description
 import GqlProofs.Format.BlockLex
 import GqlProofs.Format.FmtSchemaTokens
 import GqlProofs.Format.NormPreserveSchema
+import GqlProofs.Format.SchemaDocOf
 import GqlProofs.Props.C06
 /-
   Property C13 — format ∘ load round trip for schemas.
@@ -297,3 +298,38 @@ example : FormattableSchema C13_sampleDoc := by decide
 theorem C13_description_newline_indent_counterexample :
     blockStringValue (descBody [10] [97, 10, 98]) = [97, 10, 10, 98] ∧
     blockStringValue (descBody [44] [101]) = [44, 101, 10, 44] := by decide
+
+/-! ### loaded schemas: `FormatSchema` prints a document -/
+
+/-- (1, raw) The text `FormatSchema` writes for a schema is, byte for byte, the text
+    `FormatSchemaDocument` writes for the document `docOfSchemaRaw s`: the schema definition when the
+    formatter decides to write one (the roots that are set, the schema directives), else one
+    `extend schema @…` when there are schema directives, the directive definitions and the type
+    definitions sorted by name.  Every configuration, every schema, no hypothesis. -/
+theorem C13_schema_text_is_raw_document_text (cfg : Cfg) (s : Schema) :
+    fmtSchema cfg s = fmtSchemaDoc cfg (docOfSchemaRaw s) := by
+  unfold fmtSchema fmtSchemaDoc
+  rw [formatSchema_eq_raw]
+
+/-- (1) … and the text of `docOfSchema cfg s`, the same document without the fields the formatter
+    hides (`__schema`, `__type`), provided no printed definition has ONLY hidden fields. -/
+theorem C13_schema_text_is_document_text (cfg : Cfg) (s : Schema) (h : NoAllHidden cfg s) :
+    fmtSchema cfg s = fmtSchemaDoc cfg (docOfSchema cfg s) := by
+  unfold fmtSchema fmtSchemaDoc
+  rw [formatSchema_eq_doc cfg s h]
+
+/-- the text of a loaded schema lexes to the unparser's tokens of the (normalised) document -/
+theorem C13_schema_format_tokens {cfg : Cfg} (hind : AllBlank cfg.indent) (s : Schema) (h : NoAllHidden cfg s)
+    (hd : FormattableSchema (docOfSchema cfg s)) :
+    tokensOf (fmtSchema cfg s) = some (printSchemaLongD descTok (normSchemaDoc cfg (docOfSchema cfg s))) := by
+  rw [C13_schema_text_is_document_text cfg s h]
+  exact C13_format_tokens hind _ hd
+
+/-- (2) The text `FormatSchema` writes parses (as any source `src` with any `BuiltIn` flag `b`), and the
+    parsed document is `docOfSchema cfg s`, normalised, up to positions. -/
+theorem C13_schema_format_parses {cfg : Cfg} (hind : AllBlank cfg.indent) (s : Schema) (h : NoAllHidden cfg s)
+    (hd : FormattableSchema (docOfSchema cfg s)) (hok : DocAll ItemOK (docOfSchema cfg s)) (src : Nat) (b : Bool) :
+    ∃ d', parseSchemaSrc 0 src b (fmtSchema cfg s) = .ok d' ∧
+      d'.erasePos = (setBuiltIn b (normSchemaDoc cfg (docOfSchema cfg s))).erasePos := by
+  rw [C13_schema_text_is_document_text cfg s h]
+  exact C13_format_roundtrip hind _ hd hok src b
